@@ -450,4 +450,8 @@ def run(ctx, progs):
         r5_double_accounting(ctx, P)
         r6_counted_per_iteration(ctx, P)
         r7_forgotten_callback_results(ctx, P)
+        from . import c08
+        c08.r7_drain_keep_rest(ctx, P, R="C06.R8")
+        from . import c16
+        c16.r5_merge_consumes_operands(ctx, P, R="C06.R9")
     ctx.config = None
